@@ -36,7 +36,7 @@ Print Assumptions c27_match_srtp.
 
 Theorem c27_no_panic : forall buf,
   match_srtp buf <> Panic /\ match_srtcp buf <> Panic.
-Proof. exact (fun buf => conj (match_srtp_no_panic buf) (match_srtcp_no_panic buf)). Qed.
+Proof. exact matchers_no_panic. Qed.
 Print Assumptions c27_no_panic.
 
 (* the three classes are pairwise exclusive *)
